@@ -112,6 +112,11 @@ func (e *c14env) doPar(tk []string) string {
 		}
 	case "quit":
 		opt = &onet.ParallelOptions{QuitError: true}
+	case "quiterr":
+		// the first node answers with an error, the others with their reply; two nodes are asked at
+		// a time, in the given order, and the first error ends the call: error and accepted reply
+		// come at about the same moment
+		opt = &onet.ParallelOptions{QuitError: true, DontShuffle: true, Parallel: 2}
 	}
 	var nodes []*network.ServerIdentity
 	for _, s := range e.srvs[:n] {
@@ -160,6 +165,24 @@ func (e *c14env) doPar(tk []string) string {
 	ret := &C14WhoReply{}
 	var node *network.ServerIdentity
 	var err error
+	if tk[6] == "quiterr" {
+		// a client of its own: requests to the refusing node that are still under way when an earlier
+		// call ended with a reply must not queue up in front of this one
+		cl := onet.NewClient(fix.Suite, c14ServiceName)
+		node, err = cl.SendProtobufParallelWithDecoder(nodes, &C14Who{Nonce: nonce, FailAddr: string(nodes[0].Address)}, ret, opt, decoder)
+		mu.Lock()
+		got := *ret
+		mu.Unlock()
+		switch {
+		case err != nil:
+			return "ok quit" // ended by the error
+		case node == nil || node.Address == nodes[0].Address:
+			return "mismatch the refusing node was handed back"
+		case got.Nonce == nonce && got.Addr == string(node.Address):
+			return "ok quit" // ended by a reply that came first: it is the reply of the node handed back
+		}
+		return fmt.Sprintf("mismatch node=%s reply-of=%s nonce=%d", node.Address, got.Addr, got.Nonce)
+	}
 	if tk[6] == "quit" {
 		// the variant with the library's decoder
 		node, err = e.wsClient(tk[3]).SendProtobufParallel(nodes, &C14Who{Nonce: nonce}, ret, opt)
@@ -329,7 +352,7 @@ func (e *c14env) doAll(tk []string) string {
 	return "ok " + first
 }
 
-var c14parModes = map[string]bool{"overlap": true, "plain": true, "ordered": true, "quit": true,
+var c14parModes = map[string]bool{"overlap": true, "plain": true, "ordered": true, "quit": true, "quiterr": true,
 	"down1": true, "down2": true, "downall": true, "downquit": true}
 
 func c14isServer(e *c14env, si *network.ServerIdentity) bool {
@@ -1024,6 +1047,10 @@ func c14oracle(cs *h.Case) {
 				if obs != "err" {
 					cs.Fail("c14:error-not-reported:parallel", fmt.Sprintf("request %d %q must end with an error, got %q", i, op, obs))
 				}
+			} else if tk[6] == "quiterr" {
+				if obs != "ok quit" {
+					cs.Fail("c14:wrong-reply:parallel", fmt.Sprintf("request %d %q: %s", i, op, obs))
+				}
 			} else if obs != "ok pair" {
 				cs.Fail("c14:wrong-reply:parallel", fmt.Sprintf("request %d %q: the reply handed back is not the reply of the node handed back: %s", i, op, obs))
 			}
@@ -1551,7 +1578,10 @@ func c14genCases(c *h.Ctx, yield func(*h.Case)) {
 		cs := &h.Case{Class: "corpus:parallel-send"}
 		cs.Ops = append(cs.Ops, "c14 par t1 o1 3 7 overlap", "c14 par t1 k1 5 8 overlap", "c14 par t1 o1 4 9 plain",
 			"c14 par t1 o1 4 10 ordered", "c14 par t1 k1 3 11 quit", "c14 par t1 o1 3 12 down1", "c14 par t1 k1 4 13 down2",
-			"c14 par t1 o1 3 14 downall", "c14 par t1 o1 3 15 downquit", "c14 par t1 k1 3 16 plain")
+			"c14 par t1 o1 3 14 downall", "c14 par t1 o1 3 15 downquit", "c14 par t1 k1 3 16 plain",
+			// QuitError with a refusing node next to answering ones (the double close of `done`, fixed in round 5)
+			"c14 par t1 o1 3 17 quiterr", "c14 par t1 o1 4 18 quiterr", "c14 par t1 o1 3 19 quiterr", "c14 par t1 o1 3 20 quiterr",
+			"c14 par t1 o1 3 21 quiterr", "c14 par t1 o1 3 22 quiterr", "c14 par t1 o1 3 23 quiterr", "c14 par t1 o1 3 24 quiterr")
 		emit(cs)
 	}
 	{
@@ -1568,6 +1598,15 @@ func c14genCases(c *h.Ctx, yield func(*h.Case)) {
 			"c14 all t1 k1 3 C14Echo "+enc(8, "eight"), "c14 all t1 o1 2 C14Swap "+enc(9, "fail"), "c14 all t1 k1 3 C14Both "+enc(10, "ten"),
 			"c14 all t1 k1 2 Nope "+enc(11, "x"), "c14 all t1 k1 3 C14Echo 0a")
 		cstate(cs, "x1", "u1", "p1", "k1", "o1")
+		emit(cs)
+	}
+	{
+		// SendToAll with servers that fail in the middle / at the start / at the end of the roster
+		// (seed C14r5-B): every reply at its server's position, nothing where the Send failed
+		cs := &h.Case{Class: "corpus:send-to-all-positions"}
+		cs.Ops = append(cs.Ops, "c14 allwho t1 k1 3 41 udu", "c14 allwho t1 o1 3 42 duu", "c14 allwho t1 k1 3 43 uud",
+			"c14 allwho t1 o1 3 44 uuu", "c14 allwho t1 k1 3 45 uddu", "c14 allwho t1 o1 2 46 dd")
+		cstate(cs, "k1", "o1")
 		emit(cs)
 	}
 
@@ -1765,7 +1804,7 @@ func c14genCases(c *h.Ctx, yield func(*h.Case)) {
 			nthr = 1 + r.Intn(3)
 			for i := 0; i < nthr*(1+r.Intn(3)); i++ {
 				cl := []string{"o0", "k0", fmt.Sprintf("o%d", 1+r.Intn(3))}[r.Intn(3)]
-				mode := []string{"overlap", "overlap", "plain", "ordered", "quit", "down1", "down2", "downall", "downquit"}[r.Intn(9)]
+				mode := []string{"overlap", "overlap", "plain", "ordered", "quit", "down1", "down2", "downall", "downquit", "quiterr", "quiterr", "quiterr"}[r.Intn(12)]
 				c.Count("par:" + mode)
 				nn := 3 + r.Intn(3)
 				cs.Ops = append(cs.Ops, fmt.Sprintf("c14 par t%d %s %d %d %s", r.Intn(nthr), cl, nn, 100+g.int(false)%1000000, mode))
@@ -1827,6 +1866,20 @@ func c14genCases(c *h.Ctx, yield func(*h.Case)) {
 				c.Count("all:" + kind)
 				cs.Ops = append(cs.Ops, fmt.Sprintf("c14 all t%d %s %d %s %s", r.Intn(2), []string{"k0", "o0", "k1"}[r.Intn(3)], 2+r.Intn(3),
 					[]string{"C14Echo", "C14Swap", "C14Both", g.wsPath()}[r.Intn(4)], buf))
+				// … and a roster with unreachable nodes at random places: replies by position
+				nn := 2 + r.Intn(3)
+				pat, ups := "", 0
+				for len(pat) < nn+2 && (ups < nn || r.Intn(2) == 0) {
+					if ups < nn && r.Intn(3) != 0 {
+						pat += "u"
+						ups++
+					} else {
+						pat += "d"
+					}
+				}
+				c.Count(fmt.Sprintf("allwho:downs=%d", strings.Count(pat, "d")))
+				cs.Ops = append(cs.Ops, fmt.Sprintf("c14 allwho t%d %s %d %d %s", r.Intn(2), []string{"k0", "o0", "k1"}[r.Intn(3)], nn,
+					100+g.int(false)%1000000, pat))
 			}
 			emit(cs)
 		}
